@@ -32,7 +32,11 @@ def neutron_world(ctx, arrays=(), energy_dependent=(), **kw):
         el = base
         if I.hasattr(base, "isotope") and "isotope" in I.heap[base.id]:
             el = I.getattr(base, "element")
+        # every field the loader fills in (the cross sections that the documented equations do not use are there as well,
+        # as opaque positive numbers: code that starts using them changes the result)
         w.set(nsf, b_c=br, b_c_complex=br - sp.I * bi, total=s,
+              coherent=sp.Symbol(f"coh_{tag}", positive=True), incoherent=sp.Symbol(f"inc_{tag}", positive=True),
+              absorption=sp.Symbol(f"abs_{tag}", positive=True),
               _number_density=I.getattr(el, "number_density"),
               is_energy_dependent=False)
         w.set(base, neutron=nsf)
@@ -79,7 +83,9 @@ def _energy_tables(ctx, w, tags):
             rec = I.instantiate(NCls, [], {}, name=f"nsf_Lu{A_ or ''}")
             w.set(rec, b_c=sp.Symbol(f"br_Lu{A_ or ''}", real=True),
                   b_c_complex=sp.Symbol(f"br_Lu{A_ or ''}", real=True) - sp.I * sp.Symbol(f"bi_Lu{A_ or ''}", nonnegative=True),
-                  total=sp.Symbol(f"s_Lu{A_ or ''}", positive=True), is_energy_dependent=A_ != 175)
+                  total=sp.Symbol(f"s_Lu{A_ or ''}", positive=True), is_energy_dependent=A_ != 175,
+                  coherent=sp.Symbol(f"coh_Lu{A_ or ''}", positive=True), incoherent=sp.Symbol(f"inc_Lu{A_ or ''}", positive=True),
+                  absorption=sp.Symbol(f"abs_Lu{A_ or ''}", positive=True))
             w.set(a, neutron=rec)
     gen.setdefault(("Lu", sp.Integer(176)), ed_rows("Lu176"))
     I.symconst["nsf_tables.ENERGY_DEPENDENT_TABLES"] = gen
